@@ -1625,6 +1625,12 @@ fn gen_message(rng: &mut Rng) -> Vec<u8> {
         0..=13 => rng.pick(&MESSAGES).as_bytes().to_vec(),
         14 => (0u8..128).map(|b| b as char).collect::<String>().into_bytes(),
         15 => "x".repeat(*rng.pick(&[255usize, 256, 1000])).into_bytes(),
+        // well beyond 32 KiB: a long status message must arrive whole
+        16 if rng.chance(1, 4) => {
+            let mut m = "y".repeat(*rng.pick(&[8192usize, 40000, 70000])).into_bytes();
+            m.extend_from_slice("\u{e9}% ".as_bytes());
+            m
+        }
         _ => {
             let n = rng.range(1, 10);
             let mut s = String::new();
@@ -1649,6 +1655,10 @@ fn gen_details(rng: &mut Rng) -> Vec<u8> {
         5 => vec![0xfb, 0xff],
         6 => vec![0xfb, 0xff, 0xbf],
         7 => vec![1, 2, 3, 4],
+        8 if rng.chance(1, 8) => {
+            let n = *rng.pick(&[8191usize, 40000, 70001]);
+            rng.bytes(n)
+        }
         _ => {
             let n = rng.range(1, 40) as usize;
             rng.bytes(n)
